@@ -112,6 +112,38 @@ template <template <class> class Ode, unsigned degree, class E> void c_adaptive(
 template <class E> void c_rk42(E& e) { c_adaptive<RK42Ode, 3>(e); }
 template <class E> void c_rk54(E& e) { c_adaptive<RK54Ode, 4>(e); }
 
+// the adaptive integrators must reach the final time whatever the proposed initial increment: with a constant right-hand side every
+// step is exact and always accepted, so y(tf) - y(ti) = c0 (tf - ti) exactly iff the accepted steps add up to tf - ti
+template <template <class> class Ode, bool two_components, class E> void c_adaptive_reaches_tf(E& e) {
+  using T = typename E::real;
+  Ode<T> s;
+  s.p = sym_poly(e, 0);
+  const T ti = e.var("ti"), tf = e.var("tf"), y0 = e.var("y0"), eps = e.var("eps"), dt0 = e.var("dt0");
+  e.require(e.lt(ti, tf));
+  e.require(e.lt(T(0), eps));
+  e.require(e.lt(T(0), dt0));
+  e.require(e.le(tf - ti, T(6) * dt0));  // at most a handful of steps: keeps the path tree finite
+  if constexpr (two_components) {
+    tvector<2u, T> y;
+    y(0) = y0;
+    y(1) = T(2) * y0;
+    s.setInitialValue(y);
+  } else {
+    s.setInitialValue(y0);
+  }
+  s.setInitialTime(ti);
+  s.setFinalTime(tf);
+  s.setInitialTimeIncrement(dt0);
+  s.setCriterionValue(eps);
+  s.iterate();
+  if constexpr (two_components) {
+    e.ensure("the integration reaches tf: y(tf) - y(ti) = c0 (tf - ti)", e.eq(s.getValue()(0) - y0, s.p.c[0] * (tf - ti)));
+  } else {
+    e.ensure("the integration reaches tf: y(tf) - y(ti) = c0 (tf - ti)", e.eq(s.getValue() - y0, s.p.c[0] * (tf - ti)));
+  }
+}
+template <class E> void c_rk42_tf(E& e) { c_adaptive_reaches_tf<RK42Ode, false>(e); }
+template <class E> void c_rk54_tf(E& e) { c_adaptive_reaches_tf<RK54Ode, true>(e); }
 // Gauss-Kronrod: degree conditions of the tabulated nodes and weights. The quadrature cannot be instantiated at a class-type abscissa
 // (its lambdas use constexpr locals without capturing them), so the abscissae are doubles and the integrand returns exact rationals:
 // f(x) = (exact value of the double x)^k; the rule's sums are then exact rational arithmetic on the 15-digit tables.
@@ -145,6 +177,8 @@ VSYM_CONTRACT("RungeKutta2/increm(degree<=1)", c_rk2)
 VSYM_CONTRACT("RungeKutta4/increm(degree<=3)", c_rk4)
 VSYM_CONTRACT_P("RungeKutta42/iterate(accepted-step,degree<=3)", c_rk42, 60)
 VSYM_CONTRACT_P("RungeKutta54/iterate(accepted-step,degree<=4)", c_rk54, 60)
+VSYM_CONTRACT_P("RungeKutta42/iterate(reaches-tf)", c_rk42_tf, 80)
+VSYM_CONTRACT_P("RungeKutta54/iterate(reaches-tf)", c_rk54_tf, 80)
 #define GK(k) template <class E> void c_gk_##k(E& e) { c_gk_monomial<k>(e); } VSYM_CONTRACT("GaussKronrod/monomial/" #k, c_gk_##k)
 GK(0) GK(1) GK(2) GK(3) GK(4) GK(5) GK(6) GK(7) GK(8) GK(9) GK(10) GK(11) GK(12) GK(13) GK(14) GK(15) GK(16) GK(17) GK(18) GK(19) GK(20) GK(21) GK(22)
 #define GKI(k) template <class E> void c_gki_##k(E& e) { c_gk_interval<k>(e); } VSYM_CONTRACT("GaussKronrod/interval[1/2,3]/" #k, c_gki_##k)
